@@ -11,16 +11,20 @@ ENGINE = "gen_concat"
 RULE = ("programs = `const` items invoking str_concat! (over &[&str] and &[char]; inline array, named const, &CONST array, `[piece; COUNT]` with a named count; in a third of the programs the caller's constants carry names that konst's own macro bodies give to their helper items - LEN, STR, CONC, ... harvested from /repo's sources), "
         "str_join! (str and char separators: empty, 1-, 2-, 3-, 4-byte, multi-char; literal or named const), string::from_iter! "
         "(DSL chains yielding &str / &&str / char incl. flat_map, filter, map, rev, char ranges) and slice_concat! (u8, u16, &str, "
-        "char elements, empty inner slices, empty list) with 0..=4 pieces of <= 3 chars over {a,é,漢,😀} incl. empty pieces; "
+        "char elements, empty inner slices, empty list) with 0..=4 pieces of <= 3 chars over {a,é,漢,😀,NUL} incl. empty pieces; "
         "oracle = the std expression on the same constants compared at run time (plus: a program that fails const evaluation "
         "while its std twin compiles is a violation); non-trivial = >= 2 pieces with a multi-byte piece or separator or an empty "
         "piece, counted per distinct program")
 
-CH = ["a", "é", "漢", "😀"]
+CH = ["a", "é", "漢", "😀", "\0"]
+
+
+def esc(s):
+    return s.replace("\0", "\\0")
 
 
 def lit(s):
-    return "\"" + s + "\""
+    return "\"" + esc(s) + "\""
 
 
 def piece(rng):
@@ -90,12 +94,12 @@ def gen_plain(rng, i):
         return decl, "&str", kexpr, oexpr, nt, {"kind": kind, "form": form, "pieces": pieces}
     if kind == "concat_char":
         chars = [c for p in pieces for c in p][:6]
-        arr = "[" + ", ".join("'%s'" % c for c in chars) + "]"
+        arr = "[" + ", ".join("'%s'" % esc(c) for c in chars) + "]"
         form = rng.choice(["inline", "named_slice", "repeat"])
         if form == "repeat" and chars:
             n = rng.randint(0, 5)
-            arg = "&['%s'; %d]" % (chars[0], n)
-            oexpr = "['%s'; %d].iter().collect::<String>()" % (chars[0], n)
+            arg = "&['%s'; %d]" % (esc(chars[0]), n)
+            oexpr = "['%s'; %d].iter().collect::<String>()" % (esc(chars[0]), n)
         elif form == "named_slice":
             decl = "const P%d: &[char] = &%s;" % (i, arr)
             arg = "P%d" % i
@@ -145,12 +149,12 @@ def gen_plain(rng, i):
             oexpr = "('%s'..='%s').collect::<String>()" % (a, b)
         elif v == 5:
             chars = [c for p in pieces for c in p][:6]
-            carr = "[" + ", ".join("'%s'" % c for c in chars) + "]"
+            carr = "[" + ", ".join("'%s'" % esc(c) for c in chars) + "]"
             kexpr = "konst::string::from_iter!(&%s, filter(|c| **c != 'a'))" % (carr if chars else "['a'; 0]")
             oexpr = "(%s as [char; %d]).iter().filter(|c| **c != 'a').collect::<String>()" % (carr, len(chars))
         elif v == 6:
             chars = [c for p in pieces for c in p][:6]
-            carr = "[" + ", ".join("'%s'" % c for c in chars) + "]"
+            carr = "[" + ", ".join("'%s'" % esc(c) for c in chars) + "]"
             kexpr = "konst::string::from_iter!(&%s, copied(), rev())" % (carr if chars else "['a'; 0]")
             oexpr = "(%s as [char; %d]).iter().copied().rev().collect::<String>()" % (carr, len(chars))
         else:
@@ -167,7 +171,7 @@ def gen_plain(rng, i):
         elif ety == "&str":
             inner.append([lit(piece(rng)) for _ in range(m)])
         else:
-            inner.append(["'%s'" % rng.choice(CH) for _ in range(m)])
+            inner.append(["'%s'" % esc(rng.choice(CH)) for _ in range(m)])
     arr = "[" + ", ".join("&[" + ", ".join(x) + "]" for x in inner) + "]"
     kexpr = "&konst::slice::slice_concat!(%s, &%s)" % (ety, arr)
     oexpr = "({ let x: [&[%s]; %d] = %s; x }).concat()" % (ety, len(inner), arr)
